@@ -67,7 +67,7 @@ class C10(Prop):
     quick_examples = 1200
     thorough_examples = 6000
     fuzz_runs = 15000
-    floors = {'reject_then_accept': 0.1, 'failing_condition': 0.08, 'host_global_watch': 0.1,
+    floors = {'reject_then_accept': 0.06, 'failing_condition': 0.04, 'host_global_watch': 0.1,
               'agent_only_watch': 0.08, 'local_shadows_global': 0.2}
 
     def strategy(self, tier):
@@ -92,6 +92,8 @@ class C10(Prop):
             # another tracepoint on the same line, evaluated first, whose metric expression has the same text as the
             # condition / first watch of the tracepoint under test
             'pre_metric': st.sampled_from([None, None, 'cond', 'watch']),
+            # further actions asked for by the same tracepoint (same condition, same budget)
+            'also': st.lists(st.sampled_from(['metric', 'span']), max_size=2, unique=True),
             'watches': st.one_of(st.lists(st.sampled_from(WATCHES), max_size=3, unique=True),
                                 st.lists(st.sampled_from(AGENT_ONLY + ['G', 'x + G']), min_size=1, max_size=3, unique=True)),
         })
@@ -112,6 +114,13 @@ class C10(Prop):
             metrics = [MetricDefinition('m1', 'gauge', [LabelExpression('lg', None, 'G')], 'x + G')]
         elif kind == 'span':
             args.update({'span': 'line', 'snapshot': 'no_collect'})
+        also = [a for a in recipe.get('also') or [] if a != kind]
+        if 'metric' in also:
+            metrics = [MetricDefinition('m1', 'gauge', [LabelExpression('lg', None, 'G')], 'x + G')]
+        if 'span' in also:
+            args['span'] = 'line'
+        if also:
+            out.cls('several_actions')
         watches = list(recipe['watches']) if kind == 'snapshot' else []
         trig = build_trigger('tp', PATH, LINE, args, watches, metrics)
         logger, mproc, sproc = lab.RecLogger(), lab.RecMetricProcessor(), lab.RecSpanProcessor()
@@ -175,6 +184,18 @@ class C10(Prop):
                     out.nontrivial = True
             elif limits_allow:
                 rejected_seen = True
+            for other in also:
+                oi = {'metric': 2, 'span': 3}[other]
+                n_other = n1[oi] - n0[oi]
+                if other == 'metric':       # not the metric of the earlier tracepoint on this line
+                    n_other = len([c for c in mproc.calls[n0[2]:] if str(c[1]).startswith('m1')])
+                if n_other != (1 if expect else 0) and acted == (1 if expect else 0):
+                    out.violate('the %s action of the same tracepoint %s' % (
+                        other, 'acted on a hit its condition or limits reject' if not expect else 'did not act'),
+                        {'cond': cond, 'hit': hi, 'truth': truth, 'limits_allow': limits_allow})
+            if out.violations:
+                gen.close()
+                break
             if acted != (1 if expect else 0):
                 if acted and not truth:
                     st_, v = host_eval(cond, frame) if cond and cond.strip() else ('ok', True)
